@@ -110,7 +110,7 @@ class SymExec:
         if k in ("MethodCall", "Call"):
             return self.call(n)
         if k == "Struct":
-            if str(n.get("path", "")).endswith("Complex"):
+            if str(n.get("path", "")).endswith("Complex") or base_ty(ty_of(n)).startswith("complex::Complex") or {f["name"] for f in n.get("fields", [])} == {"real", "imag"}:
                 fs = {f["name"]: self.ev(f["e"]) for f in n["fields"]}
                 return ("cplx", fs.get("real"), fs.get("imag"))
         if k == "Block" and not n.get("stmts") and n.get("expr") is not None:
